@@ -141,7 +141,10 @@ def run(ctx):
         phase_bits = j % 8
         # lead-in random bits (as FSK, no gap) then preamble + data; a sub-byte shift via a partial first byte
         script = "S0.2,B%s,S1.5" % hx(lead + b"\xab" * 16 + data)
-        rx_lines.append(tx.line(script=script)); rx_meta.append((tx, data, lead))
+        # one run in four with a demanding power squelch (open 0.85, close 0.4..0.7: carrier loss is declared early): the last
+        # received bytes, still in the squelch's 32-symbol delay line when the carrier stops, must not be lost
+        extra = " sqopen=0.85 sqclose=%.2f" % (0.4 + rng.below(31) / 100.0) if j % 4 == 2 else ""
+        rx_lines.append(tx.line(script=script, extra=extra.strip())); rx_meta.append((tx, data, lead))
     res = rxlib.run_rx(rx_lines)
     rx_ok = 0
     for (tx, data, lead), r, line in zip(rx_meta, res, rx_lines):
